@@ -439,7 +439,7 @@ def run_scenario(spec: dict) -> dict:
                 inter.setup, adj[0].adjust = setup_seen, adjust_seen
             else:
                 inter = pc.Interaction(A(), E())
-            pc.launch(inter, {}, {"buf": SequentialBuffer(spec.get("buf_size", 1000))}, {"t": T()}, cfg)
+            pc.launch(inter, {}, {"buf": SequentialBuffer(spec.get("buf_size", 1000))}, {} if spec.get("no_trainers") else {"t": T()}, cfg)
             result["outcome"] = "returned"
         except Injected as e:
             result["outcome"] = "raised:" + str(e)
